@@ -15,39 +15,39 @@ CHECKS = {
             "Every accepted string of the workload is re-formatted and re-parsed by the real library and the fixpoint relation is judged per execution; complete for the bounded token language, sampled beyond.", "6/C01"),
     "C02": ("runtime monitoring: constructive oracle (generated tuple -> spelling) + independent strict recogniser R1, cross-checked against each other; exhaustive token language; all 18 spelling freedoms and their pairs counted",
             "Every spelling generated from a known component tuple, and every token-language string the strict recogniser accepts, is parsed by the real library and the reported components are compared with the expected ones, for the three parsable instantiations.", "6/C02"),
-    "C03": ("runtime monitoring: independent renderer (reference model R2) compared with Display on every observed PURL; exhaustive over all Unicode scalars x 5 positions and ASCII pairs",
+    "C03": ("runtime monitoring: independent renderer (reference model R2) compared with Display on every observed PURL; exhaustive over all Unicode scalars x 5 positions and ASCII pairs; values re-observed after print / take-apart / single-mutation histories; Display also under width, fill, precision and alternate flags",
             "to_string() of every PURL produced is compared with a renderer written from the property's sentence and fed only from the accessors; complete for single scalars and ASCII pairs in each position.", "6/C03"),
-    "C04": ("runtime monitoring: invariant predicate evaluated on every PURL value obtained from parser and builder (5 built-in type parameters) and from the 3072-member user-shape family whose hook edits the parts",
+    "C04": ("runtime monitoring: invariant predicate evaluated on every PURL value obtained from parser and builder (5 built-in type parameters) and from the 3072-member user-shape family whose hook edits the parts (from_str, build(), GenericPurl::new); every Unicode scalar, raw and escaped, in 11 restricted syntactic slots",
             "The invariant of the statement is checked on each value the real library hands out, including values whose parts were rewritten by hostile finish hooks; stored parts are inspected through into_builder().", "6/C04"),
-    "C05": ("runtime monitoring: strict recogniser R1 (never-accepted clause, exhaustive token language) + single-fault injection into legal spellings (error clause), injector cross-checked by R1",
+    "C05": ("runtime monitoring: strict recogniser R1 (never-accepted clause, exhaustive token language) + single-fault injection into legal spellings (error clause), injector cross-checked by R1; every Unicode scalar, raw and escaped, in 11 restricted syntactic slots",
             "Every string with a listed defect that the workload produces is fed to the real parser; acceptance, or a wrong error variant when the defect is provably the only one, is a violation. Complete for the bounded token language.", "6/C05"),
-    "C06": ("runtime monitoring: catch_unwind + panic-hook oracle on every public call (built with overflow-checks and debug-assertions) over exhaustive token language, mutated corpus, escape soup, 1 MiB inputs, builder / qualifier / checksum histories; supervisor thread enforcing a thread-CPU bound; documented panics checked against a model",
+    "C06": ("runtime monitoring: catch_unwind + panic-hook oracle on every public call (built with overflow-checks and debug-assertions) over exhaustive token language, mutated corpus, escape soup, 1 MiB inputs, builder / qualifier / checksum histories; supervisor thread enforcing a thread-CPU bound; documented panics checked against a model; a driver process killed by a signal twice on the same seed is a violation",
             "Each call group runs under catch_unwind with message and location captured; the three documented panics are accepted only where the reference map / shape says their precondition holds; non-termination is judged as bounded progress (120 s thread CPU per input, confirmed alone in a subprocess).", "6/C06"),
     "C07": ("runtime monitoring: independent raw-piece scanner + own percent decoder compared with reported namespace/subpath segments; exhaustive piece sequences (17 piece kinds, <=4/5 pieces)",
             "Every accepted string is re-scanned independently and the reported segments must equal the decoded significant pieces; exhaustive over bounded piece sequences in both positions.", "6/C07"),
-    "C08": ("runtime monitoring: name-rule model R4 + differential twins (parser vs builder, typed vs untyped) over every scalar value, all short names, token language, spellings",
+    "C08": ("runtime monitoring: name-rule model R4 + differential twins (parser vs builder, typed vs untyped) over every scalar value alone and in four rule-path contexts, all short names, token language, spellings with ecosystem vocabularies; builders re-targeted to another type",
             "Both entry points are executed for every (type, name) case and judged against the rule model; typed and untyped parses of the same string are compared field by field.", "6/C08"),
     "C09": ("runtime monitoring: lock-step builder model (R7) over exhaustive short call histories and random histories; parser as inverse; swapped-call replays",
             "Each history runs on the real builder and on the model; build outcome, accessors, re-parse of the string form and commutation of adjacent calls on different fields are judged per history.", "6/C09"),
     "C10": ("runtime monitoring: metamorphic oracle into_builder().build() == identity on every parsed and built value, 5 type parameters, all 7 package types",
             "Every value of the workload is converted back into a builder and re-built by the real library; equality and identical string are judged per value.", "6/C10"),
-    "C11": ("runtime monitoring: lock-step reference map R5 (BTreeMap keyed by lower-cased key) over every reachable content of a small universe x every operation form, and long random histories; return values and full state compared after every step",
+    "C11": ("runtime monitoring: lock-step reference map R5 (BTreeMap keyed by lower-cased key) over every reachable content of a small universe x every operation form, and long random histories; return values and full state compared after every step; 40 consuming iterator methods compared with the same methods on a slice of the model",
             "All 43 public operation forms of Qualifiers / Entry / iterators / QualifierKey are driven on the real collection and on the model; every return value, the iteration from both ends, len, Eq/Hash/Ord are compared per transition.", "6/C11"),
     "C12": ("runtime monitoring: checksum model R6 against the real HashMap-backed Checksum on many fresh instances per history (distinct hash iteration orders counted), all insertion orders for n<=4, PURL parse/build round trip, offline cross-process comparison of canonical texts",
             "Each history is executed on fresh randomly seeded instances; canonical text, parse-back, decoding and typed accessors are judged per instance, and the texts of several separate processes are compared.", "6/C12"),
     "C13": ("runtime monitoring: N-version differential comparison of the built-in type parameters (parser: String vs SmallString on the exhaustive token language; builder: String vs Cow::Borrowed vs Cow::Owned vs SmallString incl. invalid type strings)",
             "The same input is executed under every built-in type parameter and complete outcomes (setter results, Ok/Err, accessors, canonical string) are compared.", "6/C13"),
-    "C14": ("runtime monitoring: online trace-specification checker over the call events of a 3072-member family of harness-side PurlShape+FromStr implementations, plus value model post(edit(seen))",
+    "C14": ("runtime monitoring: online trace-specification checker over the call events of a 3072-member family of harness-side PurlShape+FromStr implementations, plus value model post(edit(seen)); three entries (from_str, build(), GenericPurl::new); inputs with injected single faults",
             "Each run's event trace (conversion / hook calls with arguments) is checked against the call protocol, and the result against what the hook wrote followed by the generic post-checks.", "6/C14"),
-    "C15": ("runtime monitoring: table R8 + equations over all 192 case variants, every string <= 6 over the name letters and look-alikes, all one-edit neighbours, other spec types, padded forms",
+    "C15": ("runtime monitoring: table R8 + equations over all 192 case variants, every string <= 6 over the name letters and look-alikes, all one-edit neighbours, other spec types, padded and prefixed forms, byte-structured paddings, every ASCII string of the length of a name up to 4 (thorough 5) plus 5e9 random ones; every string also in the type position of a typed PURL",
             "Every string of the enumerated spaces is given to PackageType::from_str and acceptance is judged against ASCII-lower-cased equality with a name; all seven spellings of each variant are compared.", "6/C15"),
-    "C16": ("runtime monitoring: differential oracle Deserialize vs FromStr and Serialize vs Display (serde_json, plain and \\u-escaped), a recording Serializer that must see exactly one string, non-string values via serde value deserializers",
+    "C16": ("runtime monitoring: differential oracle Deserialize vs FromStr and Serialize vs Display (serde_json, plain and \\u-escaped), a recording Serializer that must see exactly one string, non-string values via serde value deserializers; deserialize_in_place into stale values; JSON round trip of builder-made values",
             "Every input string of the workload goes through both entry points and outcomes are compared; every accepted value is serialised through serde_json and through a recording serializer.", "6/C16"),
-    "C17": ("runtime monitoring: offline comparison of per-configuration transcripts (one deterministic input stream executed by four binaries built with {}, {package-type}, {default}, {default,serde})",
+    "C17": ("runtime monitoring: offline comparison of per-configuration transcripts (one deterministic input stream executed by four binaries built with {}, {package-type}, {default}, {default,serde}); a transcript program killed by a signal under one feature set only is a violation",
             "The same inputs are executed under each feature set of the real crate and the rendered results (accessors, canonical string, error variant and text) are compared line by line via block hashes.", "6/C17"),
-    "C18": ("runtime monitoring: split model + inverse relation combined_name -> builder_with_combined_name, exhaustive over short strings x 7 types, random hostile strings, typed PURLs from the spelling generator",
+    "C18": ("runtime monitoring: split model + inverse relation combined_name -> builder_with_combined_name, exhaustive over short strings x 7 types, every Unicode scalar in three positions x 7 types, a 150-token dictionary in nine positions and three letter cases, random hostile strings, typed PURLs from the spelling generator; the built PURL must report the split",
             "Every combined-name string is split by the real constructor and compared with the three-line model; for every typed PURL meeting the side condition the inverse relation is executed and judged.", "6/C18"),
-    "C19": ("runtime monitoring: algebraic monitor over batches of near-colliding values (==, Hash, Ord, partial_cmp, antisymmetry, sorted-order transitivity, HashSet/BTreeSet/string-set sizes), 4 type parameters",
+    "C19": ("runtime monitoring: algebraic monitor over batches of near-colliding values (==, Hash, Ord, partial_cmp, antisymmetry, sorted-order transitivity, HashSet/BTreeSet/string-set sizes), 4 type parameters; every text field swept over all ASCII characters and (control character, hex digit) pairs",
             "All ordered pairs of each batch are compared through the real trait implementations and judged against canonical-string equality; batches are built from spellings, twins and one-separator-moved variants.", "6/C19"),
 }
 
